@@ -170,6 +170,12 @@ class Recorder:
                 if h not in self.nontrivial:
                     self.nontrivial.add(h)
                     s["nontrivial"] += 1
+                    if len(self.first_samples) < 3 and not any(x["subcheck"] == sub.name for x in self.first_samples):
+                        self.first_samples.append({"subcheck": sub.name, "case": desc})
+                    elif len(self.res_samples) < 4 or h < max(self.res_samples):
+                        self.res_samples[h] = {"subcheck": sub.name, "case": desc}
+                        if len(self.res_samples) > 4:
+                            del self.res_samples[max(self.res_samples)]
         if info.get("sub_cases"):
             self.evaluations -= 1
             s["evaluations"] -= 1
